@@ -1,10 +1,13 @@
 (* C14 — alternative spellings, layout and comments do not change a rule file's meaning (partial). Pinned statements only.
    Proved: the lexical layer (keyword synonym classes over tables regenerated from parser.rs, white space and comments,
-   quoted strings). NOT modelled: the nom grammar as a whole - that a synonym is accepted identically in EVERY context is
+   quoted strings) and the VALUE-LITERAL grammar (Model/ValueParse.v = parser.rs parse_value: null, strings, integers,
+   booleans, regular expressions, ranges, lists, maps): every spelling of a value - any layout and comments at every
+   position the grammar allows, either quote character, either keyword case, signs and leading zeros - parses to that
+   value. NOT modelled: the rest of the nom grammar (queries, clauses, blocks, rules) - that a synonym is accepted identically in EVERY context is
    checked by correspondence (pretty-printing generated ASTs under all spellings/layouts and comparing the parser's
    ASTs and the verdicts; tools/gv/props/c14.py). *)
-From GV.Model Require Import Lex.
-From GV.Proofs Require Import LexProps.
+From GV.Model Require Import Lex ValueParse.
+From GV.Proofs Require Import LexProps ValueParseProps ValueSpellProps ValueSpellExample.
 
 Theorem C14_keyword_tables_are_the_documented_ones :
   set_eqb kw_in_keyword ["in"; "IN"] = true /\ set_eqb kw_keys ["keys"; "KEYS"] = true /\
@@ -54,3 +57,49 @@ Theorem C14_single_and_double_quotes_agree : forall s rest,
   parse_quoted "'" (quote "'" s +++ rest) = parse_quoted """" (quote """" s +++ rest).
 Proof. exact single_and_double_quotes_agree. Qed.
 Print Assumptions C14_single_and_double_quotes_agree.
+
+(* ---- the value-literal grammar (parse_value) ---- *)
+
+(* blanks, line breaks and comments in front of a value do not matter, whatever the value and whatever follows *)
+Theorem C14_layout_before_a_value_is_irrelevant : forall rv n w s,
+  layout w -> parse_value rv n (w +++ s) = parse_value rv n s.
+Proof. exact parse_value_layout. Qed.
+Print Assumptions C14_layout_before_a_value_is_irrelevant.
+
+(* every well-formed spelling (concrete syntax tree with a layout at every position, quote style, keyword case, sign and
+   leading zeros) of a value is read as that value and leaves what follows untouched *)
+Theorem C14_every_spelling_of_a_value_parses_to_it : forall rv t rest,
+  wf rv t -> follow t rest -> parse_value_top rv (render t +++ rest) = POk (denote t) rest.
+Proof. exact spelling_parses. Qed.
+Print Assumptions C14_every_spelling_of_a_value_parses_to_it.
+
+Theorem C14_spellings_of_one_value_agree : forall rv t1 t2 rest,
+  wf rv t1 -> wf rv t2 -> follow t1 rest -> follow t2 rest -> denote t1 = denote t2 ->
+  parse_value_top rv (render t1 +++ rest) = parse_value_top rv (render t2 +++ rest).
+Proof. exact spellings_agree. Qed.
+Print Assumptions C14_spellings_of_one_value_agree.
+
+(* the parser's fuel bounds nesting and list length only: the standard fuel always suffices and more fuel changes nothing *)
+Theorem C14_value_parser_answers : forall rv s, parse_value_top rv s <> POof.
+Proof. exact parse_value_top_answers. Qed.
+Print Assumptions C14_value_parser_answers.
+
+Theorem C14_value_parser_fuel_irrelevant : forall rv s n,
+  (value_fuel s <= n)%nat -> parse_value rv n s = parse_value_top rv s.
+Proof. exact parse_value_fuel_irrelevant. Qed.
+Print Assumptions C14_value_parser_fuel_irrelevant.
+
+(* a parsed value consumed at least one character: what is left is strictly shorter *)
+Theorem C14_value_parser_consumes : forall rv n s v r,
+  parse_value rv n s = POk v r -> (String.length r < String.length s)%nat.
+Proof. exact parse_value_consumes. Qed.
+Print Assumptions C14_value_parser_consumes.
+
+(* the premises are met: a map with comments, both quote styles, signs, leading zeros, ranges, a regex, nested lists *)
+Theorem C14_spelling_instance :
+  wf (fun _ => true) ex_cst /\
+  parse_value_top (fun _ => true) (render ex_cst) = POk (denote ex_cst) EmptyString /\
+  denote ex_cst = VMap [("ports", VList [VInt 80; VInt (-1); VRangeInt 1 5 1]);
+                        ("a ""b", VList [VStr "it's"; VNull; VBool true; VRegex "^a.*$"; VRangeChar "a" "z" 2; VMap []])].
+Proof. exact (conj ex_cst_wf ex_cst_parses). Qed.
+Print Assumptions C14_spelling_instance.
